@@ -30,7 +30,9 @@ have to run, per layer, in which order, written from the property statements and
 not from the code under test.
 """
 import contextlib
+import hashlib
 import importlib
+import json
 import io
 import logging
 import math
@@ -393,6 +395,11 @@ def run_inproc(world, opts, list_tests=False, extra_args=()):
     """Run the REAL Runner in this process on suites built from the world.
     -> (events [(pid, kind, name)], stdout text, runner)"""
     from zope.testrunner.runner import Runner
+    from native import _boot
+    # suites built here are invisible to child processes: never let an
+    # in-process world resume layers in children
+    assert not opts.get('j') or list_tests, 'in-process worlds cannot use -j'
+    assert not any(l.get('notd') for l in world['layers'])
     mod = make_layers_module(world)
     suites = [mod.build(m['suite']) for m in world['modules']]
     tmp = tempfile.mkdtemp(prefix='selw-')
@@ -403,7 +410,8 @@ def run_inproc(world, opts, list_tests=False, extra_args=()):
             try:
                 r = Runner(defaults=[],
                            args=argv(opts, tmp, list_tests) + list(extra_args),
-                           found_suites=suites)
+                           found_suites=suites,
+                           script_parts=_boot.CHILD_SCRIPT_PARTS)
                 r.run()
             finally:
                 sys.modules.pop(LAYMOD, None)
@@ -446,10 +454,24 @@ class RealWorld:
     def __exit__(self, *exc):
         shutil.rmtree(self.dir, ignore_errors=True)
 
-    def run(self, opts, list_tests=False, extra_args=()):
-        """-> (events, stdout text, runner); children are real processes"""
+    def _events(self):
+        events = []
+        with open(self.log) as f:
+            for line in f:
+                pid, kind, name = line.rstrip('\n').split('\t', 2)
+                events.append((int(pid), kind, name))
+        return events
+
+    def run_local(self, opts, list_tests=False, extra_args=()):
+        """Run the REAL Runner in this process on the real modules.  Only for
+        cases that cannot spawn children (no -j, no layer that cannot be torn
+        down).  -> (events, stdout text, runner)"""
         from zope.testrunner.runner import Runner
         from native import _boot
+        assert list_tests or not opts.get('j'), 'use run() for -j'
+        assert list_tests or \
+            not any(l.get('notd') for l in self.world['layers']), \
+            'use run() for layers that cannot be torn down'
         open(self.log, 'w').close()
         importlib.invalidate_caches()
         with _sandbox(extra_modules=self.tops) as cap:
@@ -459,12 +481,57 @@ class RealWorld:
                        script_parts=_boot.CHILD_SCRIPT_PARTS)
             r.run()
             out = _captured(cap)
-        events = []
-        with open(self.log) as f:
-            for line in f:
-                pid, kind, name = line.rstrip('\n').split('\t', 2)
-                events.append((int(pid), kind, name))
-        return events, out, r
+        return self._events(), out, r
+
+    def run(self, opts, list_tests=False, extra_args=(), timeout=60.0):
+        """Run the REAL Runner as a separate process (its own session / process
+        group, hard watchdog, the whole group is killed afterwards) so that the
+        layer children it spawns (-j N, resumed layers) can never outlive the
+        case.  Children are started with _boot.CHILD_SCRIPT_PARTS only.
+        -> (events, stdout text, None)"""
+        import json
+        import signal
+        import subprocess
+        from native import _boot
+        open(self.log, 'w').close()
+        driver = _boot.BOOT + DRIVER % (_boot.CHILD_SCRIPT_PARTS,)
+        args = argv(opts, self.dir, list_tests) + list(extra_args)
+        env = dict(os.environ)
+        env[ENV] = self.log
+        env['PYTHONWARNINGS'] = 'ignore'
+        proc = subprocess.Popen(
+            [sys.executable, '-c', driver, json.dumps(args)],
+            stdin=subprocess.DEVNULL, stdout=subprocess.PIPE,
+            stderr=subprocess.PIPE, env=env, cwd=self.dir,
+            start_new_session=True)
+        try:
+            try:
+                out, err = proc.communicate(timeout=timeout)
+            except subprocess.TimeoutExpired:
+                raise RuntimeError('watchdog: runner process exceeded %ss'
+                                   % timeout)
+        finally:
+            try:
+                os.killpg(proc.pid, signal.SIGKILL)
+            except (ProcessLookupError, PermissionError):
+                pass
+            try:
+                proc.communicate(timeout=5)
+            except Exception:
+                pass
+        if proc.returncode != 0:
+            raise RuntimeError('runner process failed (%s): %s' % (
+                proc.returncode, err.decode('utf-8', 'replace')[-2000:]))
+        return self._events(), out.decode('utf-8', 'replace'), None
+
+
+DRIVER = r"""
+import sys, json
+from zope.testrunner.runner import Runner
+_r = Runner(defaults=[], args=json.loads(sys.argv[1]), script_parts=%r)
+_r.run()
+sys.stdout.flush()
+"""
 
 
 # --------------------------------------------------------------------------
@@ -571,3 +638,46 @@ def gen_world(rng, n_modules=2, depth=3, real=False, notd=False,
         mods.append({'name': mname, 'suite': node})
     mods.sort(key=lambda m: m['name'])
     return {'layers': layers, 'modules': mods}
+
+
+# --------------------------------------------------------------------------
+
+class Collector:
+    """counts cases, keeps <= 5 samples and the smallest case per finding key"""
+
+    def __init__(self, nontrivial):
+        self.nontrivial = nontrivial
+        self.cases = 0
+        self.distinct = set()
+        self.findings = {}
+        self.samples = []
+        self.kinds = {}
+
+    def feed(self, case, check):
+        self.cases += 1
+        self.kinds[case['kind']] = self.kinds.get(case['kind'], 0) + 1
+        if self.nontrivial(case):
+            self.distinct.add(hashlib.md5(
+                json.dumps(case, sort_keys=True).encode()).digest())
+        try:
+            viol = check(case)
+        except Exception as e:   # the real code blew up: that is a finding too
+            viol = [('crash:%s:%s' % (case['kind'], type(e).__name__),
+                     '%s: %s' % (type(e).__name__, e))]
+        for key, summary in viol:
+            size = len(json.dumps(case))
+            old = self.findings.get(key)
+            if old is None or size < old[0]:
+                self.findings[key] = (size, {'key': key, 'summary': summary,
+                                             'case': case})
+
+    def sample(self, case):
+        if len(self.samples) < 5:
+            self.samples.append(case)
+
+    def result(self, exhaustive, bound, rule):
+        return {'cases': self.cases, 'distinct': len(self.distinct),
+                'rule': rule, 'exhaustive': exhaustive, 'bound': bound,
+                'by_kind': self.kinds, 'samples': self.samples,
+                'findings': [f for _s, f in sorted(
+                    self.findings.values(), key=lambda x: x[1]['key'])]}
